@@ -181,17 +181,17 @@ def run_protocol(cfg, prefix, mode="sync", horizon=6000, sleep_at=None):
                         raise HarnessBroken("start_session did not create a virtual thread: seam defeated")
                     for bi in range(nb):
                         if fault and fault["session"] == si and fault["batch"] == bi and fault["where"] == "before_get":
-                            raise InjectedFault("before_get")
+                            raise (InjectedInterrupt if fault.get("kind") == "interrupt" else InjectedFault)("before_get")
                         s = sched.get_next_sampler()
                         obs["samplers"].append(_sampler_index(sched, s))
                         if fault and fault["session"] == si and fault["batch"] == bi and fault["where"] == "after_get":
                             obs["samplers"][-1] = ("aborted", obs["samplers"][-1])
-                            raise InjectedFault("after_get")
+                            raise (InjectedInterrupt if fault.get("kind") == "interrupt" else InjectedFault)("after_get")
                         loss = cfg.get("l0", L0) if batch == 0 else script[(batch - 1) % len(script)]
                         obs["losses"].append(loss)
                         sched.update(batch, np.array([[float(batch)]]), np.array([loss]), None)
                         batch += 1
-            except InjectedFault as e:
+            except (InjectedFault, InjectedInterrupt) as e:
                 obs.setdefault("faults", []).append(str(e))
             qa, qo = queue_sizes()
             obs["sessions"].append({"q_action": qa, "q_outcome": qo, "thread_alive": bool(vt.live_threads())})
@@ -226,6 +226,10 @@ def run_protocol(cfg, prefix, mode="sync", horizon=6000, sleep_at=None):
 
 class InjectedFault(Exception):
     pass
+
+
+class InjectedInterrupt(KeyboardInterrupt):
+    """Ctrl-C in the middle of a batch: a BaseException that is not an Exception."""
 
 
 # ---------------------------------------------------------------------------------------------
@@ -280,7 +284,7 @@ def monitor(obs):
             break
     if obs.get("faults") and not v and ran != pols[:len(ran)]:
         v.append(("sampler-not-chosen-by-agent", f"executed agent-chosen batches {ran} are not the agent's choices {pols} in order (a choice was skipped or used twice around a failed batch)"))
-    rew = reference_rewards(obs["losses"])
+    rew = reference_rewards(obs["losses"]) if obs["losses"] else []
     if len(learns) > len(ran):
         v.append(("learn-unexecuted", f"agent learned {len(learns)} times for {len(ran)} executed agent-chosen batches: {learns} vs executed {ran}"))
     elif len(learns) < len(ran):
